@@ -15,6 +15,8 @@ class Unordered(UnorderedReferences, InducedSet, References, SameID, Group):
   }
   NAME_FIELD = "pid"
   REFERENCE_FIELDS = ["items"]
-  DEPENDENT_LINES = ["sets"]
+  # (paths: an ordered group which lists the set, although it should not,
+  # refers to it like to any other item)
+  DEPENDENT_LINES = ["sets", "paths"]
 
 Unordered._apply_definitions()
